@@ -481,6 +481,10 @@ class Gen:
             # a context state handle that exists already: mk_context_state / add_state must refuse, whatever went before
             h = self.rng.choice(sorted(self.ctx_states))
             dh = self.ctx_states[h]
+            other_dhs = sorted({d for d in self.ctx_states.values() if d != dh} |
+                               {x for x in ('PC.mds0', 'LC.mds0') if x in self.tree and x != dh})
+            if other_dhs and self.rng.random() < 0.5:
+                dh = self.rng.choice(other_dhs)       # the handle is in use by a state of ANOTHER context descriptor
             acts = [['mk', dh, h, self.rng.random() < 0.5, self.fresh()]]
             others = [o for o in self.ctx_of(dh) if o != h]
             if others and self.rng.random() < 0.5:
